@@ -87,6 +87,13 @@ func (c *NoiseGrpcConn) Read(b []byte) (n int, err error) {
 		msgLen := len(c.nextMsg)
 		copy(b, c.nextMsg)
 
+		// If the buffer is too small for what is left of the message,
+		// we keep the remainder for the next call.
+		if msgLen > len(b) {
+			c.nextMsg = c.nextMsg[len(b):]
+			return len(b), nil
+		}
+
 		c.nextMsg = nil
 		return msgLen, nil
 	}
@@ -94,6 +101,16 @@ func (c *NoiseGrpcConn) Read(b []byte) (n int, err error) {
 	requestBytes, err := c.noise.ReadMessage(c.ProxyConn)
 	if err != nil {
 		return 0, fmt.Errorf("error decrypting payload: %v", err)
+	}
+
+	// If the passed buffer can hold neither the whole message nor the
+	// amount we'd hand out at once, we only return what fits and keep the
+	// rest of the message for the next call instead of dropping it.
+	if len(b) < len(requestBytes) && len(b) < defaultGrpcWriteBufSize {
+		n := copy(b, requestBytes)
+		c.nextMsg = requestBytes[n:]
+
+		return n, nil
 	}
 
 	// Do we need to read this message in two parts? We cannot give the
